@@ -8,3 +8,4 @@ def load_all():
     _loaded = True
     from . import unit_database  # noqa
     from . import quantity  # noqa
+    from . import obtain  # noqa
